@@ -99,7 +99,7 @@ void k_one_sort_rev(Ctx& c)
 template <int F>
 void t_sort_fn(Ctx& c)
 {
-    k_one_sort_rev<F>(c);
+    C06_FULL(k_one_sort_rev<F>(c);)
     k_one_sort<KPtr, F>(c);
     k_one_sort<KRa, F>(c);
 }
@@ -264,4 +264,4 @@ std::size_t const kNumTests = sizeof(kTests) / sizeof(kTests[0]);
 
 } // namespace c06
 
-C06_MAIN("C06_sort")
+C06_MAIN(C06_TRUTHY ? "C06_sort_truthy" : "C06_sort")
